@@ -16,7 +16,7 @@ use std::{
     collections::{BTreeMap, HashMap},
     ops::{Add, AddAssign, Mul},
     sync::{
-        atomic::{AtomicU32, Ordering},
+        atomic::{AtomicU64, Ordering},
         Mutex,
     },
 };
@@ -33,11 +33,11 @@ use tari_bulletproofs_plus::{
 };
 
 /// First id handed out for harness-made "symbol" basis elements (never produced by hashing)
-pub const SYMBOL_BASE: u32 = 0x8000_0000;
+pub const SYMBOL_BASE: u64 = 1 << 63;
 
 /// Sparse coordinate vector; invariant: no stored coefficient is zero
 #[derive(Clone, Debug, PartialEq, Eq, Default)]
-pub struct FmPoint(pub BTreeMap<u32, Scalar>);
+pub struct FmPoint(pub BTreeMap<u64, Scalar>);
 
 /// 32-byte handle of an `FmPoint` (SHA3-256 of the canonical coordinate list; all-zero = identity)
 #[derive(Clone, Copy, Debug, PartialEq, Eq, Hash)]
@@ -64,8 +64,8 @@ pub struct FmLog {
 }
 
 static REG: Mutex<Option<HashMap<[u8; 32], FmPoint>>> = Mutex::new(None);
-static BASIS: Mutex<Option<(HashMap<[u8; 64], u32>, Vec<[u8; 64]>)>> = Mutex::new(None);
-static NEXT_SYMBOL: AtomicU32 = AtomicU32::new(SYMBOL_BASE);
+static BASIS: Mutex<Option<(HashMap<[u8; 64], u64>, HashMap<u64, [u8; 64]>)>> = Mutex::new(None);
+static NEXT_SYMBOL: AtomicU64 = AtomicU64::new(SYMBOL_BASE);
 
 thread_local! {
     static LOG: RefCell<Option<FmLog>> = const { RefCell::new(None) };
@@ -103,9 +103,9 @@ pub fn registry_len() -> usize {
 }
 
 /// The 64 uniform bytes a hashed basis element was created from
-pub fn basis_bytes(id: u32) -> Option<[u8; 64]> {
+pub fn basis_bytes(id: u64) -> Option<[u8; 64]> {
     let g = BASIS.lock().ok()?;
-    g.as_ref()?.1.get(id as usize).copied()
+    g.as_ref()?.1.get(&id).copied()
 }
 
 pub fn basis_count() -> usize {
@@ -118,7 +118,7 @@ impl FmPoint {
         self
     }
 
-    pub fn basis(i: u32) -> Self {
+    pub fn basis(i: u64) -> Self {
         let mut m = BTreeMap::new();
         m.insert(i, Scalar::ONE);
         FmPoint(m)
@@ -150,7 +150,7 @@ impl FmPoint {
     }
 
     /// Coefficient on basis element `id`
-    pub fn coeff(&self, id: u32) -> Scalar {
+    pub fn coeff(&self, id: u64) -> Scalar {
         self.0.get(&id).copied().unwrap_or(Scalar::ZERO)
     }
 
@@ -163,7 +163,7 @@ impl FmPoint {
     }
 
     /// If this is exactly one basis element with coefficient one, its id
-    pub fn single_id(&self) -> Option<u32> {
+    pub fn single_id(&self) -> Option<u64> {
         if self.0.len() == 1 {
             let (k, v) = self.0.iter().next()?;
             if *v == Scalar::ONE {
@@ -253,18 +253,19 @@ impl FromUniformBytes for FmPoint {
                 log.uniform_inputs.push(*b);
             }
         });
+        // the id of a hashed basis element is a function of its 64 bytes alone (not of registration order), so that
+        // encodings over the free module are as history-independent as encodings of curve points
+        let d: [u8; 32] = sha3::Sha3_256::digest(b).into();
+        let id = u64::from_le_bytes([d[0], d[1], d[2], d[3], d[4], d[5], d[6], d[7]]) & !SYMBOL_BASE;
         let mut g = BASIS.lock().unwrap_or_else(|e| e.into_inner());
-        let (m, v) = g.get_or_insert_with(|| (HashMap::new(), Vec::new()));
-        let id = match m.get(b) {
-            Some(id) => *id,
-            None => {
-                let id = v.len() as u32;
-                assert!(id < SYMBOL_BASE);
-                m.insert(*b, id);
-                v.push(*b);
-                id
-            },
-        };
+        let (m, v) = g.get_or_insert_with(|| (HashMap::new(), HashMap::new()));
+        if !m.contains_key(b) {
+            if let Some(other) = v.get(&id) {
+                assert!(other == b, "FmPoint: 63-bit id collision between two different hash-to-group inputs");
+            }
+            m.insert(*b, id);
+            v.insert(id, *b);
+        }
         FmPoint::basis(id)
     }
 }
